@@ -178,3 +178,42 @@ BOUNDED = [{"name": "deep-snapshot-around-every-operation", "script": "bounded/b
 import dataclasses as _dc  # noqa: E402
 from contracts.c04 import UNITS as _C04_UNITS  # noqa: E402
 UNITS += [_dc.replace(u, prop="C08") for u in _C04_UNITS if u.target.endswith("ArgumentParser.get_defaults")]
+
+
+# ------------------------------------------------------------------------------------------------ strip_meta / Namespace.clone
+def sm_setup(ctx):
+    kind = ["non-empty-namespace", "empty-namespace", "non-empty-dict", "empty-dict", "None"][ctx.choose(5, "cfg")]
+    cfg = {"non-empty-namespace": Rec("Namespace", methods={"__bool__": lambda c, s_, a, k: True}), "empty-namespace": Rec("Namespace", methods={"__bool__": lambda c, s_, a, k: False}),
+           "non-empty-dict": {"a": 1, "__path__": 2}, "empty-dict": {}, "None": None}[kind]
+    copy = Rec("copy without meta keys")
+    calls = {"recreate_branches": lambda c, a, k: (c.event("recreate", a[0], k.get("skip_keys")), copy)[1]}
+    meta = {"__default_config__", "__path__", "__orig__"}
+    return Setup(env={"cfg": cfg}, calls=calls, consts={"meta_keys": meta}, data=dict(kind=kind, cfg=cfg, copy=copy, meta=meta))
+
+
+def sm_post(ctx, st, result):
+    d = st.data
+    ev = [e for e in ctx.events if e[0] == "recreate"]
+    if d["kind"].startswith("non-empty"):
+        ctx.oblige("post", f"a-configuration-with-content-is-returned-as-a-copy-without-the-meta-keys(the caller's object is not the result)[{d['kind']}]", result is d["copy"] and len(ev) == 1 and ev[0][1] is d["cfg"] and ev[0][2] is d["meta"])
+    else:
+        # nothing to strip and nothing a caller could later damage through the result: an empty / missing configuration is returned as it is
+        ctx.oblige("post", f"an-empty-configuration-has-nothing-to-strip[{d['kind']}]", result is d["cfg"] and not ev)
+
+
+def clone_setup(ctx):
+    self = Rec("Namespace")
+    copy = Rec("copy")
+    return Setup(env={"self": self}, calls={"recreate_branches": lambda c, a, k: (c.event("recreate", a[0], dict(k)), copy)[1]}, data=dict(self_=self, copy=copy))
+
+
+def clone_post(ctx, st, result):
+    d = st.data
+    ev = [e for e in ctx.events if e[0] == "recreate"]
+    ctx.oblige("post", "clone-is-recreate_branches(self):an-equal-configuration-whose-branches-are-new-objects,nothing-skipped", result is d["copy"] and len(ev) == 1 and ev[0][1] is d["self_"] and not ev[0][2])
+
+
+UNITS += [
+    Unit("C08", "jsonargparse._namespace:strip_meta", sm_setup, sm_post, no_exc, trusted=["recreate_branches: its own unit"]),
+    Unit("C08", "jsonargparse._namespace:Namespace.clone", clone_setup, clone_post, no_exc, trusted=["recreate_branches: its own unit"]),
+]
